@@ -156,6 +156,21 @@ func buildPay() *World {
 			send("A->E 10 BIP", A, K("erin").Addr, 0, e18(10), 0),
 			redeem("B redeems gina's COINA check (value + fee in COINA exceed what she holds; value + the fee's BIP figure do not)", B,
 				IssueCheck(K("gina"), "n6", types.CurrentChainID, h0+3, PayCoinA, e18(10), PayCoinA, "pw"), "pw", PayCoinA, 1),
+			// a sell-all pays its fee in the sold coin whatever the gas-coin field says; these two fail in Run
+			{Name: "C sell all COINA, minimum too high, gas-coin field names LP-1 (C holds none)", Type: transaction.TypeSellAllCoin, Signer: C, GasCoin: PayLP1,
+				Data: transaction.SellAllCoinData{CoinToSell: PayCoinA, CoinToBuy: 0, MinimumValueToBuy: e18(100000000)}},
+			{Name: "C sell all TOKA through the pool, minimum too high, gas-coin field names LP-1", Type: transaction.TypeSellAllSwapPool, Signer: C, GasCoin: PayLP1,
+				Data: transaction.SellAllSwapPoolDataV260{Coins: []types.CoinID{PayTokA, 0}, MinimumValueToBuy: e18(100000000)}},
+			func() Tx {
+				t := send("A->B whole balance with a 5-byte payload and gas price 3 (fails in Run: the failure fee counts the bytes and the gas price)", A, B.Addr, 0, e18(1000000), 0)
+				t.Payload, t.GasPrice = []byte("bytes"), 3
+				return t
+			}(),
+			func() Tx {
+				t := msend("M send by[A,A'] two different signatures of the same owner", A, A)
+				t.AltSig = []int{1}
+				return t
+			}(),
 		}
 		// "C uses B's proof": the proof was made for B's address
 		for i := range w.Menu {
